@@ -75,3 +75,19 @@ Example C10_example :
   let f := lru_run c [([], [], [1%N]); ([1%N], [], [2%N]); ([2%N], [], [3%N])] [] in
   victims_ok_run c [([], [], [1%N]); ([1%N], [], [2%N]); ([2%N], [], [3%N])] [] /\ f = [[3%N]].
 Proof. vm_compute. repeat split; intros; try reflexivity; discriminate. Qed.
+
+(* a read is an access: after a Get at time t the key is not evicted for idleness by any background pass before
+   t + MaxIdleDuration, whatever its earlier last-access stamp was (Table.Get stamps the owner's copy; the idle test of
+   the read itself looks at that fresh stamp, so a read never reports a stored, unexpired key as idle) *)
+Theorem C10_read_keeps_alive : forall E m d k t now p sample s,
+  lookup (ploc E d k) s = Some p -> expired (ettl p) now = false -> now < max_idle E d + t ->
+  let s1 := fst (get E d k t s) in
+  forall l, holder E d k l = true -> lookup l (evict_pass E m sample now s1) = lookup l s1.
+Proof.
+  intros E m d k t now p sample s Hp Hx Hw s1 l Hl. subst s1. cbn [get fst].
+  eapply (evict_keeps E m now d k {| ev := ev p; ettl := ettl p; ets := ets p; ela := t |}); [| | |exact Hl].
+  - rewrite lookup_touch, loc_eqb_refl, Hp. reflexivity.
+  - exact Hx.
+  - unfold idle. cbn [ela]. destruct (max_idle E d =? 0); [reflexivity|]. cbn.
+    destruct (Z.leb_spec (max_idle E d + t) now); [lia|reflexivity].
+Qed.
